@@ -39,6 +39,7 @@ type Config struct {
 type Clock struct {
 	Now    string `json:"now"` // RFC3339Nano, UTC
 	ZoneS  int    `json:"zone_offset_s"`
+	Zone   string `json:"zone,omitempty"` // IANA name; when set it replaces the fixed offset (zones with daylight-saving rules)
 	TickNs int64  `json:"tick_ns"`
 }
 
@@ -74,6 +75,7 @@ type Lookup struct {
 	Base   int     `json:"base"` // 0 = use the API without base year (default 1900)
 	API    int     `json:"api"`  // 0 BySectAndBaseYear, 1 BySect, 2 plain (sect 2)
 	Why    string  `json:"why,omitempty"`
+	Task   int     `json:"task,omitempty"` // concurrent-caller runs: the caller that makes this lookup (callers run their lookups in order)
 }
 
 // JieRef names a moment relative to a Jie term instant.
